@@ -171,6 +171,16 @@ def check3(ctx, cid, P, st, deep=True):
         Y = safe(ctx, cid, 'UnitDualQuaternion.SE3', P, lambda: dq.SE3())
         if Y is not None:
             cmp(ctx, cid, 'UnitDualQuaternion.SE3', P, Y.A, M, sc, 'UnitDualQuaternion -> SE3')
+        # the conjugate is the inverse of a unit dual quaternion: it converts to the inverse motion and composes to the identity
+        if deep:
+            def _u(c):      # the conjugate may come back as a general dual quaternion: same numbers, re-wrapped as a unit one
+                return c if hasattr(c, 'SE3') else S.UnitDualQuaternion(S.UnitQuaternion(np.asarray(c.real.vec, dtype=float), norm=False, check=False), c.dual)
+            Yc = safe(ctx, cid, 'UnitDualQuaternion.conj', P, lambda: _u(dq.conj()).SE3())
+            if Yc is not None:
+                cmp(ctx, cid, 'UnitDualQuaternion.conj', P, Yc.A, ref.inv_h(M), sc, 'UnitDualQuaternion.conj() -> SE3 (inverse motion)')
+            Yi = safe(ctx, cid, 'UnitDualQuaternion.conj', P, lambda: _u(dq * dq.conj()).SE3())
+            if Yi is not None:
+                cmp(ctx, cid, 'UnitDualQuaternion.conj', P, Yi.A, np.eye(4), sc, 'dq * dq.conj() -> identity')
     if not deep:
         return
     # pairwise conversions and round trips
@@ -436,6 +446,18 @@ def bfs(ctx, dim, k, K):
                 ntr += 1
                 P = dict(dim=dim, depth=d + 1, step=how)
                 st2 = step(ctx, cid, P, st, g, how)
+                if how in ('mulr', 'mull') and g is not None:
+                    # the documented mixed-class products: Twist * SE -> SE is the same composition with the left factor held as a twist
+                    a_, b_ = (st, g) if how == 'mulr' else (g, st)
+                    tn_, sn_ = ('Twist3', 'SE3') if dim == 3 else ('Twist2', 'SE2')
+                    ta, sb = a_.o.get(tn_), b_.o.get(sn_)
+                    if ta is not None and sb is not None:
+                        Y = safe(ctx, cid, tn_ + '.mul', dict(P, mixed=tn_ + '*' + sn_), lambda: ta * sb)
+                        if Y is not None:
+                            if type(Y).__name__ != sn_ or len(Y.data) != 1:
+                                ctx.fail(cid, tn_ + '.mul', 'returns:' + type(Y).__name__, dict(P, mixed=tn_ + '*' + sn_), '%s * %s gave %s' % (tn_, sn_, type(Y).__name__))
+                            else:
+                                cmp(ctx, cid, tn_ + '.mul', dict(P, mixed=tn_ + '*' + sn_), Y.A, st2.M, st2.sc, '%s * %s (documented: exp(twist) then the pose)' % (tn_, sn_))
                 h = canon(st2.M)
                 new = h not in seen
                 check(ctx, cid, P, st2, deep=new)
